@@ -111,7 +111,7 @@ func Run(r *vh.Run) {
 		{"syncclose", r.Pick(4, 40), scenSyncClose, false},
 		{"relay", r.Pick(3, 30), scenRelay, false},
 		{"caps", r.Pick(6, 120), scenCaps, false},
-		{"capsout", r.Pick(2, 30), scenCapsOut, false},
+		{"capsout", r.Pick(3, 32), scenCapsOut, false},
 		{"shutdown", r.Pick(14, 252), scenShutdown, false},
 		{"srv", r.Pick(3, 60), scenSrv, false},
 		{"wallet", r.Pick(2, 30), scenWallet, false},
@@ -1663,10 +1663,36 @@ func scenCaps(name string, rng *vh.RNG, r *vh.Run) {
 	}
 }
 
+// delayDialer delays the i-th dial by delays[i].
+type delayDialer struct {
+	net.Dialer
+	n      atomic.Int32
+	delays []time.Duration
+}
+
+func (d *delayDialer) DialContext(ctx context.Context, network, addr string) (net.Conn, error) {
+	i := int(d.n.Add(1)) - 1
+	select {
+	case <-time.After(d.delays[i%len(d.delays)]):
+	case <-ctx.Done():
+		return nil, ctx.Err()
+	}
+	return d.Dialer.DialContext(ctx, network, addr)
+}
+
 // outbound: the automatic dialer must respect MaxOutboundPeers.
 func scenCapsOut(name string, rng *vh.RNG, r *vh.Run) {
-	maxOut := []int{0, 1, 2, 3}[rng.Intn(4)]
-	k := 4 + rng.Intn(4)
+	// the limit is the scenario's number (2, 1, 3, 0, …): every quick run covers 1, 2 and 3; there
+	// are always more reachable candidates than free slots, and dials take different times (a
+	// dialer that delays each dial), so that a dial can complete while another would be in flight
+	idx := 0
+	fmt.Sscanf(name[len("capsout"):], "%d", &idx)
+	maxOut := []int{2, 1, 3, 0}[idx%4]
+	k := maxOut + 3 + rng.Intn(4)
+	delays := make([]time.Duration, 64)
+	for i := range delays {
+		delays[i] = time.Duration(2+rng.Intn(40)) * time.Millisecond
+	}
 	c := &vh.Case{Name: name, Tags: []string{"scen:capsout", fmt.Sprintf("maxOut:%d", maxOut)}, Info: map[string]any{"maxOut": maxOut, "candidates": k}}
 	defer func() { r.Add(c) }()
 	threadgroup.VerifStart()
@@ -1681,7 +1707,8 @@ func scenCapsOut(name string, rng *vh.RNG, r *vh.Run) {
 		remotes = append(remotes, rm)
 		ps.AddPeer(rm.s.Addr())
 	}
-	srv, err := newNodeStore("127.0.0.1", ps, syncer.WithMaxOutboundPeers(maxOut), syncer.WithPeerDiscoveryInterval(20*time.Millisecond))
+	srv, err := newNodeStore("127.0.0.1", ps, syncer.WithMaxOutboundPeers(maxOut), syncer.WithPeerDiscoveryInterval(20*time.Millisecond),
+		syncer.WithDialer(&delayDialer{delays: delays}))
 	if err != nil {
 		orc(c, "setup", "server: %v", err)
 		return
@@ -1716,6 +1743,13 @@ func scenCapsOut(name string, rng *vh.RNG, r *vh.Run) {
 		closeWithin(func() { rm.s.Close() }, closeDeadline)
 	}
 	events := threadgroup.VerifStop()
+	// exact: the number of outbound peers the code itself counted under s.mu at every insertion
+	for _, e := range events {
+		if e.Kind == "s.addpeer" && e.A == srv.s.VerifID() && e.B&1 == 0 && e.B>>1 > maxOut {
+			orc(c, "outbound-cap-exceeded", "the automatic dialer inserted outbound peer number %d, MaxOutboundPeers = %d (%d reachable candidates)", e.B>>1, maxOut, k)
+			break
+		}
+	}
 	c.Nontrivial = k > maxOut
 	c.Key = fmt.Sprintf("%s/%d", name, len(events))
 	inventory(c)
@@ -2106,8 +2140,10 @@ func (g *gateWalletStore) BroadcastedSets() ([]wallet.BroadcastedSet, error) {
 }
 
 func scenWallet(name string, rng *vh.RNG, r *vh.Run) {
-	hold := rng.Bool()
-	c := &vh.Case{Name: name, Tags: []string{"scen:wallet"}, Info: map[string]any{"hold": hold}}
+	idx := 0
+	fmt.Sscanf(name[len("wallet"):], "%d", &idx)
+	hold := idx%2 == 0 // even: a rebroadcast round is held inside the store while Close is called
+	c := &vh.Case{Name: name, Tags: []string{"scen:wallet", fmt.Sprintf("wallet-hold:%v", hold)}, Info: map[string]any{"hold": hold}}
 	defer func() { r.Add(c) }()
 	threadgroup.VerifStart()
 	n, genesis := testutil.V2Network()
@@ -2170,6 +2206,16 @@ func scenWallet(name string, rng *vh.RNG, r *vh.Run) {
 	case <-time.After(closeDeadline):
 		orc(c, "wallet-close-hung", "SingleAddressWallet.Close did not return within %v", closeDeadline)
 	}
+	// nothing of the closed wallet uses the store afterwards
+	gw.mu.Lock()
+	callsAtClose := gw.calls
+	gw.mu.Unlock()
+	time.Sleep(150 * time.Millisecond)
+	gw.mu.Lock()
+	if gw.calls > callsAtClose || gw.inside > 0 {
+		orc(c, "calls-into-store-after-close", "%d call(s) of the rebroadcast loop into the wallet store began after SingleAddressWallet.Close had returned (%d in progress)", gw.calls-callsAtClose, gw.inside)
+	}
+	gw.mu.Unlock()
 	events := threadgroup.VerifStop()
 	c.Nontrivial = true
 	c.Key = fmt.Sprintf("%s/%v", name, hold)
